@@ -235,12 +235,37 @@ CHECKS = {
             "The zones an address is delegated are read statically from the internet definition; hostile servers add only "
             "out-of-bailiwick records; the query bound is deliberately generous; DNSSEC off.",
             "DESIGN.md section 4 C19", "recursor"),
+    "C08": ("model_checking",
+            "TLA+ machine plus declarative RFC oracle (Entails / Entails3) model-checked against zone truth; TLC-generated zones x claims with the exact families of record subsets that entail them replayed into the real verifier via hook H1; end-to-end signed server -> validator; recorded events judged by a TLA+ monitor with clause-level explanations",
+            "Entails is written from RFC 4035 5.4 / RFC 6840 4 and checked by TLC against the truth of the name space (zone, child "
+            "zone, parent side) for soundness and for completeness of the RFC 4035 3.1.3 server proof; for every zone of <= 2-3 "
+            "owners over the {a,b,*} universe x query x type x rcode, every subset of <= 3 NSEC records (own chain and foreign) in "
+            "every order and several SOA contexts is offered to verify_nsec (16M calls in quick, 83M in thorough): Secure only "
+            "if Entails, and the prescribed proof must be Secure; end to end a signed InMemoryZoneHandler answers through "
+            "Catalog and its proof goes through verify_nsec and DnssecDnsHandle; random larger zones with perturbed proofs are "
+            "judged by Trace_Nsec.",
+            "H1 wrapper, JSON/record concretisers and TLC trusted; only minimal unsound subsets are reported (supersets implied); "
+            "a DS NODATA proven by a record with the SOA bit accepts both verdicts.",
+            "DESIGN.md section 4 C08", "nsec"),
+    "C09": ("model_checking",
+            "TLA+ machine plus declarative RFC oracle (Entails / Entails3) model-checked against zone truth; TLC-generated zones x claims with the exact families of record subsets that entail them replayed into the real verifier via hook H1; end-to-end signed server -> validator; recorded events judged by a TLA+ monitor with clause-level explanations",
+            "Entails3 is written from RFC 5155 8.4-8.8 and checked by TLC over zones x hash orders x Opt-Out incl. stale-parameter "
+            "material and iteration limits; the hash table is a constant built from real SHA-1 hashes; every subset of <= 3 "
+            "NSEC3 records in every order is offered to verify_nsec3 (12M calls in quick, 156M in thorough) for every claim; "
+            "iteration counts around the soft/hard limits; end to end through a signed NSEC3 zone; random larger zones, "
+            "mixed-parameter and cross-zone mixtures judged by Trace_Nsec3.",
+            "Only SHA-1 (cross-checked between ring and hickory), first 60 hash bits; H1 wrapper and concretisers trusted; eight "
+            "soundness defects of verify_nsec3 are known findings (their fix stack needs edits of unit-test data), so unsound "
+            "acceptances explained by exactly those clauses are not reported.",
+            "DESIGN.md section 4 C09", "nsec"),
 }
 
 NOT_YET = {
 }
 
 ENGINES = [
+    {"name": "nsec", "path": "spec/Nsec.tla", "serves_properties": ["C08", "C09"],
+     "kind_free_text": "TLA+ spec (DnsNames, NsecOps, Nsec, NsecScopes, Nsec3Ops, Nsec3, Nsec3Scopes, MC_/Gen_/Trace_Nsec, MC_/Gen_/Trace_Nsec3) + harness/src/bin/drive_nsec, drive_nsec3"},
     {"name": "pool", "path": "spec/Pool.tla", "serves_properties": ["C18"],
      "kind_free_text": "TLA+ spec (PoolOps, Pool, MC_/Gen_/Trace_Pool) + harness/src/bin/drive_pool.rs"},
     {"name": "recursor", "path": "spec/Recursor.tla", "serves_properties": ["C19"],
